@@ -14,4 +14,12 @@ CHECKS = {
     "C01": {"pkg": "cli", "assumptions": CLI_ASSUME + ["strconv.Atoi / strconv.ParseFloat(.,64) are the conversion specification named by the statement"],
             "subs": [sub("TestC01_scalar", 40000, 1600000, 16)],
             "fuzz": [{"target": "FuzzC01_scalar", "sub": "scalar", "time": 90}]},
+    "C03": {"pkg": "cli", "assumptions": CLI_ASSUME + ["reference model of 'wholly consumed' tokens written from the statements; inputs it calls unspecified are not judged"],
+            "subs": [sub("TestC03_conserve", 60000, 2400000, 16)],
+            "fuzz": [{"target": "FuzzC03_conserve", "sub": "conserve", "time": 90}]},
+    "C02": {"pkg": "cli", "assumptions": CLI_ASSUME + ["consumption rule transcribed from the statement; int ranges with a>=b, empty attached values and '--' in a mandatory position are not judged"],
+            "subs": [sub("TestC02_multi", 50000, 2400000, 16)],
+            "fuzz": [{"target": "FuzzC02_multi", "sub": "multi", "time": 90}]},
+    "C04": {"pkg": "cli", "assumptions": CLI_ASSUME + ["a `--` standing where a mandatory value is still missing is excepted by the statement and not judged", "the reference model is used only to tell whether a require-order stop precedes the terminator"],
+            "subs": [sub("TestC04_terminator", 40000, 1600000, 16)]},
 }
